@@ -27,6 +27,9 @@ func scenarioC06(c *hlib.RunCtx) *hlib.Violation {
 	if c.Flag("family") == "wellformed" {
 		// (c) the well-formed files of the C10 histories (names of every shape and
 		// size, stack names with methods and closures): only what Parse says counts here.
+		if c.Tape.Bool(1, 2) {
+			return scenarioC06Encoded(c)
+		}
 		if v := scenarioC10(c); v != nil && strings.HasPrefix(v.Invariant, "parse-") {
 			v.Property = "C06"
 			return v
@@ -94,7 +97,7 @@ func scenarioC06Corruption(c *hlib.RunCtx) *hlib.Violation {
 		return w.viol
 	}
 	// If the damage left the file well-formed, Parse must read it faithfully.
-	if d, derr := refformat.Decode(data); derr == nil {
+	if d, derr := refformat.DecodeDoc(data); derr == nil {
 		v := &view{path: "damaged.v1.count", last: data, dec: d}
 		w.compareParse(v)
 		c.Note("damaged-but-wellformed")
@@ -106,6 +109,63 @@ func scenarioC06Corruption(c *hlib.RunCtx) *hlib.Violation {
 		w.s.Logf("parse", "error")
 	} else {
 		w.s.Logf("parse", "ok %d", len(pf.Count))
+	}
+	return w.viol
+}
+
+// scenarioC06Encoded: files written by the independent encoder, with the
+// library writers' conventions (whole pages, page ends left free) and without
+// them (records packed across pages, the last one ending on the last byte of
+// the file, the file ending at the limit): whatever the reader of the
+// documented layout accepts, Parse must read the same.
+func scenarioC06Encoded(c *hlib.RunCtx) *hlib.Violation {
+	t := c.Tape
+	w := newWorld(c, baseTime(c))
+	defer w.close()
+	kv := [][2]string{{"TimeBegin", "2024-03-01T00:00:00Z"}, {"TimeEnd", "2024-03-08T00:00:00Z"}, {"Program", "example.com/" + strings.Repeat("p", t.Draw(70)) + "prog"},
+		{"Version", "v1.2.3"}, {"GoVersion", "go1.23.1"}, {"GOOS", "linux"}, {"GOARCH", "amd64"}}
+	if t.Bool(1, 4) {
+		kv = append(kv, [2]string{"Extra: key", "value: with colon "})
+	}
+	meta := refformat.MetaText(kv[:t.Range(0, len(kv))])
+	var pairs []refformat.Pair
+	n := t.Draw(12)
+	if t.Bool(1, 4) {
+		n = 20 + t.Draw(200)
+	}
+	for i := 0; i < n; i++ {
+		name := genName(t, i, true)
+		if t.Bool(1, 3) {
+			// record sizes that are exact multiples of the 32-byte unit
+			name = fmt.Sprintf("%d|", i) + strings.Repeat("n", 16+32*t.Draw(8)-len(fmt.Sprintf("%d|", i)))
+		}
+		pairs = append(pairs, refformat.Pair{Name: name, Value: uint64(t.Draw(1 << 20))})
+	}
+	var data []byte
+	var err error
+	style := t.Draw(3)
+	switch style {
+	case 0:
+		data, err = refformat.Encode(meta, pairs, t.Draw(3))
+	case 1:
+		data, err = refformat.EncodeTight(meta, pairs, t.Draw(3), false)
+	case 2:
+		data, err = refformat.EncodeTight(meta, pairs, t.Draw(3), true)
+	}
+	if err != nil {
+		return nil
+	}
+	d, derr := refformat.DecodeDoc(data)
+	if derr != nil {
+		panic("independent encoder and decoder disagree: " + derr.Error())
+	}
+	c.Note("nontrivial")
+	c.Note(fmt.Sprintf("encoded-style-%d", style))
+	c.Sample = map[string]any{"style": style, "records": len(pairs), "size": len(data)}
+	w.s.Logf("case", "style %d records %d size %d", style, len(pairs), len(data))
+	w.compareParse(&view{path: "encoded.v1.count", last: data, dec: d})
+	if w.viol != nil {
+		w.viol.Property = "C06"
 	}
 	return w.viol
 }
